@@ -303,7 +303,7 @@ def free_case(draw, nwaits):
 
 
 def run(ctx):
-    cnt = ctx.each("grid", grid_blocks(ctx.tier), check_block, stop_after=4, timeout=600)
+    cnt = ctx.each("grid", grid_blocks(ctx.tier), check_block, stop_after=4, timeout=300)
     ctx.exhaustive["grid"] = {"complete": True, "n_blocks": cnt, "bound": f"<= {2 if ctx.tier == 'quick' else 3} arrivals on 11 grid points x 4 match patterns each x timeout none/1..11 x 4 polling settings x 3 conditions x 2 event kinds"}
     ctx.hyp("concurrent", free_case(2), check_case, ctx.scale(150, 4000))
     ctx.hyp("fine", free_case(1), check_case, ctx.scale(150, 4000))
